@@ -56,6 +56,7 @@ func cmdRun(args []string) {
 	solver := fs.String("solver", "z3", "")
 	mapsym := fs.Bool("mapsym", false, "")
 	params := fs.String("p", "", "k=v,k=v")
+	boundViol := fs.Bool("boundviol", false, "")
 	fs.Parse(args)
 	p, err := engine.Load(*repo, loadOverlay(*repo, *hdir))
 	if err != nil {
@@ -97,7 +98,7 @@ func cmdRun(args []string) {
 		defer pprof.StopCPUProfile()
 	}
 	for _, h := range fs.Args() {
-		st, err := engine.Explore(p, h, engine.Opts{MaxSteps: *steps, MaxDepth: 400, MaxLoop: 100000, MapOrderSymbolic: *mapsym, WantReach: true, Params: pm}, *workers, *solver, 10000, *maxPaths)
+		st, err := engine.Explore(p, h, engine.Opts{MaxSteps: *steps, MaxDepth: 400, MaxLoop: 100000, MapOrderSymbolic: *mapsym, WantReach: true, Params: pm, BoundIsViolation: *boundViol}, *workers, *solver, 10000, *maxPaths)
 		if err != nil {
 			fmt.Println("error:", err)
 			os.Exit(2)
